@@ -43,3 +43,31 @@ chk("C09", "enum", "crash-point enumeration: every byte offset (gob, JSON) / rec
 chk("C13", "enum", "bounded exhaustive enumeration of all splits of a result sequence over files x encoding assignments, library and command level",
     "Every surjective assignment of n<=7 records to k<=3 files x every encoding assignment (k=4..6 with 6 encoding patterns) through NewRoundRobinDecoder(DecoderFor..); the report (json/text/hist/hdrplot) and encode commands end-to-end for n<=4 (thorough 5) compared with the single-file run.",
     _B_NOTE + " Percentile estimates are excluded from the cross-split comparison (they depend on insertion order; C11 bounds them).", "DESIGN.md section 3 C13")
+
+chk("C01", "enum", "explicit-state search of the pacer closed loop in virtual time (states (t, n, stalls used), visited set) over a parameter grid, plus a pointwise grid; exact big-integer reference for the constant pacer",
+    "1094 parameter sets (constant 15x12, sine 850, linear 64 incl. integer extremes and invalid ones); for each valid one the closed loop of the attack is searched explicitly with all placements of <=2 injected stalls in the first 12 steps and every single stall before hit 2^k, horizon 2000 hits (thorough 20000). Oracles: count <= schedule+1 at every release (U), positive wait only when less than one hit is overdue (W), not more than one hit (+quantisation) behind for constant/sine (L), no panic / documented stop and unlimited answers (P). Closed forms are cross-checked against the pacer's own Rate() by Simpson integration.",
+    "Float tolerance eps = 0.02 + 1e-9 n hits for sine/linear; the (L) bound is read as including the hit being released. Parameter values outside the grid are not explored. 43 known findings (sine solver non-convergence for amp/mean >= 0.9 shapes, linear pacer with negative slope) are listed in known_findings.json by parameter class.",
+    "DESIGN.md section 3 C01")
+chk("C06", "enum", "fault enumeration at the transport seam: full products of request/response shapes x every body-read fault point x redirect chains, against a reference model of the Result and of the request on the wire",
+    "One-hit attacks through the exported API with a scripted RoundTripper and a body that logs every Read/Close: statuses x headers x body lengths x max-body {-1,0,len-1,len,len+1} x read chunking x read error after every k bytes x redirect chains 0..3 x Redirects {NoFollow,0,1,2,unset} x transport errors; ~196k hits quick, 7.5M thorough.",
+    "net/http's redirect following and request writing are trusted. Pairwise (not full product) between the request side and the response side in quick.",
+    "DESIGN.md section 3 C06")
+chk("C11", "enum", "bounded exhaustive enumeration of latency sequences (all 55 986 sequences of length <=6 over a value alphabet, every n <= N of structured families) against a rank-window reference computed from the sorted input",
+    "All sequences of length 1..6 over {1,2,3,1e3,1e6,1e12}ns with and without intermediate Close; 8 structured families x 3 arrival orders for every n in 1..400 (thorough 1..3000, plus 1e4/1e5); ordering chain, rank window 1+1%n (either rank origin), constant input, hdrplot monotonicity.",
+    "Random distributions (uniform, log-normal) named in the quantifier are outside a bounded exhaustive check and are not sampled. The t-digest is the weakest case for the small-scope hypothesis; one known finding (p50 on interleaved geometric plateaus, n >= 1900) is listed.",
+    "DESIGN.md section 3 C11")
+chk("C12", "enum", "bounded exhaustive enumeration of bucket lists x boundary latencies x textual spellings against a reference bucket index; renderings parsed back",
+    "All 255 increasing sublists of the bound alphabet (+3 lists of 20 bounds); every latency sequence of length <=2 (thorough 3) over {b-1,b,b+1,MaxInt64}; 3 spacings x 8 unit spellings through UnmarshalText and the in-process report command (hist[...] and -buckets); text and JSON renderings parsed back, including the no-result case.",
+    _B_NOTE, "DESIGN.md section 3 C12")
+chk("C15", "vsched", "stateless exploration of all interleavings of 2-3 callers on the real targeters under a controlled scheduler, with scheduling points inside the library's critical sections (yielding reader)",
+    "http and JSON stream targeters over inputs of 1-4 targets with a reader that yields on every Read (line- and byte-granular), static targeter with 1-3 targets x 1-3 draws, 2 and 3 callers: every interleaving (unbounded; bound 2 for 3 callers x >=3 targets in quick). Oracle: exactly-once multiset, targets intact, stream order per caller, exhaustion reported to every caller, strict rotation counts. A free-running -race companion (64 goroutines, 10 000 targets, unrewritten code) reports data races.",
+    _A_NOTE, "DESIGN.md section 3 C15")
+chk("C17", "enum", "bounded exhaustive enumeration of arrival permutations x OK/ERROR masks x gap patterns, and of all (count, threshold) pairs for LTTB, against a reference of the plotted points",
+    "n<=5 (thorough 6) results: all gap patterns x 2^n masks x n! arrival orders; two interleaved attacks; package-private data() compared with the reference and, on a subset, with the data block parsed out of the written HTML; lttb.Downsample for every count <=64 (thorough 128) x threshold 0..count+1 x 3 shapes directly and through Plot.",
+    "x is accepted as the whole millisecond below or above the exact time (the statement says millisecond resolution). dygraph HTML template layout is parsed by the harness.", "DESIGN.md section 3 C17")
+chk("C18", "vsched", "explicit choice-tree exploration of shuffle outcomes per dial history + schedule exploration of two concurrently dialling threads on the real dial path, with a reachability (EF) oracle over the explored tree",
+    "math/rand in the instrumented lib/attack.go is a shim whose every Fisher-Yates step is an explored choice. Histories of 3 dials (2 for 2+2 addresses; thorough 3-4) on 7 address sets; two threads dialling concurrently with yields between swaps (bound 2; 2+2 addresses in thorough). Per dial: addresses are resolved ones, exactly one per family, name resolved once. Tree oracle: from every reachable state every resolved address is dialled by some outcome of the next dial. ConnectTo: 5 640 histories over small maps (cyclic, even, unmapped untouched). A free-running -race companion composes every ordered subset (<=3) of 8 dial-related options (+ the command's order) and dials concurrently.",
+    _A_NOTE + " dnscache, singleflight and the Go resolver run uninstrumented; DNS is an in-process server behind net.DefaultResolver. Races on plain memory (rng, round-robin index) are only visible to the race companion.", "DESIGN.md section 3 C18")
+chk("C20", "enum", "bounded exhaustive enumeration of Observe sequences into a fresh registry, compared with sums computed from the results",
+    "Every sequence of length 0..5 (thorough 6) over a 7-result pool, observed sequentially and from two goroutines; gathered metric families compared per label set: byte counters, histogram count/sum/cumulative buckets, failure counter per message, no series for unobserved label sets.",
+    "client_golang is trusted for gathering. Concurrency inside client_golang is not schedule-explored (two free goroutines only).", "DESIGN.md section 3 C20")
